@@ -47,6 +47,10 @@ pub enum Op {
     EditOldMtime(u16),
     /// the same for the case's hot file
     HotEditOldMtime,
+    /// truncate a file to zero length (present but empty: not the same as absent)
+    MakeEmpty(u16),
+    /// make the case's hot file an empty file (creating it if it is gone)
+    HotEmpty,
 }
 
 pub const BIG_SIZES: [usize; 9] = [
@@ -120,6 +124,7 @@ pub struct Hist {
     pub big: bool,
     pub tail_edit: bool,
     pub old_mtime: bool,
+    pub empty_file: bool,
 }
 
 fn is_sentinel(p: &str) -> bool {
@@ -152,6 +157,7 @@ impl Hist {
             big: false,
             tail_edit: false,
             old_mtime: false,
+            empty_file: false,
         };
         // initial content: whatever install_config wrote plus a few ordinary files
         for p in HOT {
@@ -434,6 +440,23 @@ impl Hist {
                 f.set_modified(old).map_err(|e| e.to_string())?;
                 self.old_mtime = true;
                 format!("edit (mtime set back) {:?}", p)
+            }
+            Op::MakeEmpty(_) | Op::HotEmpty => {
+                let p = match op {
+                    Op::HotEmpty => self.hot.clone(),
+                    Op::MakeEmpty(f) => {
+                        let e = self.editable();
+                        if e.is_empty() {
+                            return Ok("noop".into());
+                        }
+                        e[pick(*f, e.len())].clone()
+                    }
+                    _ => unreachable!(),
+                };
+                self.env.write_file(&p, b"");
+                self.work.insert(p.clone(), vec![]);
+                self.empty_file = true;
+                format!("make empty {:?}", p)
             }
             Op::Rewrite(f) => {
                 let e = self.editable();
